@@ -310,6 +310,10 @@ def c18(ctx):
         if ic[:2] != mc[:2] and not (ic[0] == 'exc' and mc[0] == 'exc' and ic[1] == mc[1]):
             if mc == ['exc', 'OutOfFuel'] and ic[0] == 'exc' and ic[1] == 'OSError':
                 continue
+            if c.opts[4] != 'default' and (known.d29_dirs(c) or known.d21_dirs(c)) and known_finding(ctx, 'C18', c, 'idempotence', ['reload of a Manifest that its parent lists as data']):
+                # findings D29 / D21 under an ebuild profile: the profile (re)creates the Manifest of such a directory, the entry objects
+                # of the first load live on detached - the model drops them.  Attributed to the listed finding, not compared.
+                continue
             if acceptable and ic[0] == 'exit' and mc[0] == 'exit':
                 ctx.violation('spec', f'gemato {c.argv[0]}: exit status {ic[1]}, the reference says {mc[1]}', replay)
             else:
